@@ -3,12 +3,53 @@ project the heap, and let TraceBDD / TraceBool judge."""
 import gc
 import json
 import random
+import re
 
 import pymc
 from pymc import pyModelChecking
 import pyModelChecking.BDD as BDDpkg
 from pyModelChecking.BDD import OBDD, BDDNode
 import pyModelChecking.BDD.BDD as bddmod
+
+
+# variable names are arbitrary Python identifiers: the abstract names a..f, z of cases and events are mapped to concrete
+# names only at the boundary to the library (and mapped back in every projection).  Pools: one letter; names that contain
+# one another; the usual numbering past 9; long names; non-ASCII identifiers.  Concrete names are built at run time
+# (not interned literals), as names read from a file or produced by formatting are.
+ABS = ['a', 'b', 'c', 'd', 'e', 'f', 'z']
+VNAMES = [None,
+          dict(zip(ABS, ['x1', 'x10', 'x', 'x1_', 'xx', 'x11', 'x100'])),
+          dict(zip(ABS, ['a', 'ab', 'abc', 'b', 'ba', 'aa', 'abcd'])),
+          dict(zip(ABS, ['v' * 40 + 'a', 'v' * 40, 'v' * 41, 'w_' * 30, 'v' * 39, 'V' * 40, 'z' * 50])),
+          dict(zip(ABS, ['\u03b1', '\u03b1\u03b2', '\u03b2', '\u00e9t\u00e9', 'na\u00efve', '\u03b11', '\u03c9'])),
+          dict(zip(ABS, ['var', 'Not', 'And', 'true', 'lambda_', 'false', 'nil']))]
+
+
+class Names(object):
+    def __init__(self, k):
+        self.fwd = VNAMES[k % len(VNAMES)] if k is not None else None
+        self.bwd = {v: a for a, v in self.fwd.items()} if self.fwd else None
+
+    def c(self, v):                       # abstract -> concrete (a fresh string object each time)
+        if not self.fwd or not isinstance(v, str):
+            return v
+        w = self.fwd.get(v, v)
+        return ''.join(list(w))
+
+    def a(self, v):                       # concrete -> abstract
+        if not self.bwd:
+            return v
+        return self.bwd.get(v, v)
+
+    def order(self, o):
+        return [self.c(v) for v in o]
+
+    def expr(self, e):
+        if e[0] == 'var':
+            return ('var', self.c(e[1]))
+        if e[0] in ('const', 'bad'):
+            return e
+        return (e[0],) + tuple(self.expr(x) for x in e[1:])
 
 
 def present_order(order, k):
@@ -19,10 +60,17 @@ def present_order(order, k):
     return order if k % 3 == 0 else ListOrdering(order) if k % 3 == 1 else Ordering(order)
 
 
-def tree(node, memo=None):
+def tree(node, nm=None):
     if isinstance(node, bddmod.BDDTerminalNode):
         return ['t', 1 if node.value else 0]
-    return [node.var, tree(node.low), tree(node.high)]
+    return [nm.a(node.var) if nm else node.var, tree(node.low, nm), tree(node.high, nm)]
+
+
+def rebuild(node, nm=None):
+    """a hand-built copy of a diagram: BDDNode(var, low, high) bottom-up with freshly made name strings"""
+    if isinstance(node, bddmod.BDDTerminalNode):
+        return BDDNode(bool(node.value))
+    return BDDNode(''.join(list(node.var)), rebuild(node.low), rebuild(node.high))
 
 
 def heap_scan(ballast_ids=None, roots=()):
@@ -83,6 +131,7 @@ def _run(b):
     ballast_ids = None
     if ballast is not None:
         ballast_ids = set(id(n) for n in BDDNode.nodes() if isinstance(n, bddmod.BDDNonTerminalNode))
+    nm = Names(b.get('vnames', b.get('shuf', b.get('trace', 0))) if b.get('vnames', 'vary') is not None else None)
     order = list(b['order'])
     ordk = b.get('shuf', b.get('trace', 0)) * 3 if b.get('ordstyle', 'vary') == 'vary' else 0
     ho = {}
@@ -96,12 +145,17 @@ def _run(b):
         try:
             if op == 'var':
                 o = list(c.get('order', order))
-                po = present_order(o, ordk + len(events))
-                held[c['h']] = OBDD(c['v'], po) if b.get('build', 'expr') == 'expr' else OBDD(BDDNode(c['v'], BDDNode(False), BDDNode(True)), po)
+                po = present_order(nm.order(o), ordk + len(events))
+                if b.get('build', 'expr') == 'expr':
+                    held[c['h']] = OBDD(nm.c(c['v']), po)
+                elif (ordk + len(events)) % 2:
+                    held[c['h']] = OBDD(BDDNode(nm.c(c['v']), BDDNode(False), BDDNode(True)), po)
+                else:           # the optional parameter: the node is taken without the ordering check
+                    held[c['h']] = OBDD(BDDNode(nm.c(c['v']), BDDNode(False), BDDNode(True)), po, check_ordering=False)
                 ho[c['h']] = o
             elif op == 'const':
                 o = list(c.get('order', order))
-                held[c['h']] = OBDD('1' if c['b'] else '0', present_order(o, ordk + len(events)))
+                held[c['h']] = OBDD('1' if c['b'] else '0', present_order(nm.order(o), ordk + len(events)))
                 ho[c['h']] = o
             elif op == 'apply':
                 a, d = held[c['h1']], held[c['h2']]
@@ -116,7 +170,7 @@ def _run(b):
                 held[c['h']] = ~held[c['h1']]
             elif op == 'restrict':
                 ho[c['h']] = ho[c['h1']]
-                held[c['h']] = held[c['h1']].restrict(c['v'], c['b'] if b.get('restrict_arg', 'bool') == 'bool' else int(c['b']))
+                held[c['h']] = held[c['h1']].restrict(nm.c(c['v']), c['b'] if b.get('restrict_arg', 'bool') == 'bool' else int(c['b']))
             elif op == 'park':
                 parked[c['h']] = held.pop(c['h'])
             elif op == 'release':
@@ -142,7 +196,7 @@ def _run(b):
                 except Exception:
                     eq = None
                 same.append([x, y, eq, allh[x].root is allh[y].root])
-        ev['proj'] = {'roots': {h: tree(o.root) for h, o in allh.items()}, 'live': live, 'dups': dups, 'same': same}
+        ev['proj'] = {'roots': {h: tree(o.root, nm) for h, o in allh.items()}, 'live': live, 'dups': dups, 'same': same}
         events.append(ev)
     held.clear()
     parked.clear()
@@ -153,8 +207,11 @@ def _run(b):
 
 
 # ---------------------------------------------------------------- expressions (C17, C18)
-BAD_TEXT = {'plus': '(a + b)', 'less': '(a < b)', 'call': 'f(a)', 'num2': '2', 'minus': '(-a)', 'xor': '(a ^ b)', 'str': "'a'",
-            'ifexp': '(a if b else a)', 'eq': '(a == b)', 'sub': 'a[0]', 'uplus': '(+a)'}
+# plainly NON-Boolean syntax only: arithmetic, calls, subscripts, attribute access, containers, numbers other than 0/1, strings.
+# (Exclusive or, conditional expressions and comparisons of Boolean operands denote Boolean functions: a parser that
+# accepts them as well does not contradict "non-Boolean syntax raises SyntaxError", so they are not generated.)
+BAD_TEXT = {'plus': '(a + b)', 'call': 'f(a)', 'num2': '2', 'minus': '(-a)', 'str': "'a'", 'sub': 'a[0]', 'uplus': '(+a)',
+            'mult': '(a * b)', 'attr': 'a.b', 'list': '[a]', 'pow': '(a ** 2)', 'floordiv': '(a // b)'}
 
 
 def render(e, style, rnd=None):
@@ -197,10 +254,10 @@ def _atomise(x):
     return render_chain(x) if x[0] in ('var', 'const') else '(%s)' % render_chain(x)
 
 
-def obdd_out(fn):
+def obdd_out(fn, nm=None):
     try:
         o = fn()
-        return o, {'tree': tree(o.root), 'vars': sorted(o.variables())}
+        return o, {'tree': tree(o.root, nm), 'vars': sorted((nm.a(v) if nm else v) for v in o.variables())}
     except (KeyboardInterrupt, SystemExit, MemoryError):
         raise
     except BaseException as ex:
@@ -213,17 +270,23 @@ def bool_event(c):
     ev = {k: v for k, v in c.items() if k not in ('seed',)}
     order = c.get('order')
 
+    nm = Names(rnd.randrange(len(VNAMES)) if c.get('vnames', 'vary') == 'vary' else c.get('vnames'))
+
     def text(e):
         st = c.get('style', 'sym')
+        e = nm.expr(e)
         return render_chain(e) if st == 'chain' else render(e, st, rnd)
     ok_ = rnd.randrange(9)
 
     def olist(o, j=0):
-        return present_order(o, (ok_ // 3 if j else ok_))
+        return present_order(nm.order(o), (ok_ // 3 if j else ok_))
+
+    def out(fn):
+        return obdd_out(fn, nm)
     keep = []
     for ptext, pord in c.get('pre', []):          # diagrams kept alive while the event runs (history in the global heap)
         try:
-            keep.append(OBDD(ptext, list(pord)))
+            keep.append(OBDD(re.sub(r'\b[a-fz]\b', lambda m: nm.c(m.group(0)), ptext), nm.order(pord)))
             keep.append(~keep[-1])
         except Exception:
             pass
@@ -231,41 +294,44 @@ def bool_event(c):
         s = text(c['e'])
         ev['text'] = s
         if c['notation'] == 'lambda':
-            s = 'lambda %s: %s' % (','.join(order), s)
-            _, ev['out'] = obdd_out(lambda: OBDD(s))
+            s = 'lambda %s: %s' % (','.join(nm.order(order)), s)
+            _, ev['out'] = out(lambda: OBDD(s))
         else:
-            _, ev['out'] = obdd_out(lambda: OBDD(s, olist(order)))
+            _, ev['out'] = out(lambda: OBDD(s, olist(order)))
     elif op in ('binop', 'not', 'restrict'):
-        a, oa = obdd_out(lambda: OBDD(text(c['e1']), olist(order)))
+        a, oa = out(lambda: OBDD(text(c['e1']), olist(order)))
         if a is None:
             ev['out'] = oa
         elif op == 'binop':
-            b, ob = obdd_out(lambda: OBDD(text(c['e2']), olist(order, 1)))
+            b, ob = out(lambda: OBDD(text(c['e2']), olist(order, 1)))
             if b is None:
                 ev['out'] = ob
             else:
-                _, ev['out'] = obdd_out(lambda: (a & b) if c['bop'] == 'and' else (a | b) if c['bop'] == 'or' else (a ^ b))
+                _, ev['out'] = out(lambda: (a & b) if c['bop'] == 'and' else (a | b) if c['bop'] == 'or' else (a ^ b))
         elif op == 'not':
-            _, ev['out'] = obdd_out(lambda: ~a)
+            _, ev['out'] = out(lambda: ~a)
         else:
-            _, ev['out'] = obdd_out(lambda: a.restrict(c['v'], c['b'] if rnd.random() < 0.5 else int(c['b'])))
+            _, ev['out'] = out(lambda: a.restrict(nm.c(c['v']), c['b'] if rnd.random() < 0.5 else int(c['b'])))
     elif op == 'mixorder':
         def run():
-            a = OBDD(c['t1'], olist(c['order1']))
-            b = OBDD(c['t2'], olist(c['order2'], 1))
+            a = OBDD(nm.c(c['t1']), olist(c['order1']))
+            b = OBDD(nm.c(c['t2']), olist(c['order2'], 1))
             return (a & b) if c['bop'] == 'and' else (a | b) if c['bop'] == 'or' else (a ^ b)
-        _, ev['out'] = obdd_out(run)
+        _, ev['out'] = out(run)
     elif op == 'strrt':
         if c.get('notation') == 'lambda':
-            o, ev['base'] = obdd_out(lambda: OBDD('lambda %s: %s' % (','.join(order), text(c['e']))))
+            o, ev['base'] = out(lambda: OBDD('lambda %s: %s' % (','.join(nm.order(order)), text(c['e']))))
         else:
-            o, ev['base'] = obdd_out(lambda: OBDD(text(c['e']), olist(order)))
+            o, ev['base'] = out(lambda: OBDD(text(c['e']), olist(order)))
+        if o is not None and ok_ % 3 == 1:
+            # the same diagram built by hand from BDDNode(var, low, high) calls (hash-consing must find every node again)
+            o, ev['base'] = out(lambda: OBDD(rebuild(o.root), o.ordering, check_ordering=(ok_ < 5)))
         if o is None:
             ev['rt1'] = ev['rt2'] = {'exc': 'base'}
         else:
             ev['printed'] = [str(o.root), str(o)]
-            r1, ev['rt1'] = obdd_out(lambda: OBDD(str(o.root), o.ordering))
-            r2, ev['rt2'] = obdd_out(lambda: OBDD(str(o)))
+            r1, ev['rt1'] = out(lambda: OBDD(str(o.root), o.ordering))
+            r2, ev['rt2'] = out(lambda: OBDD(str(o)))
             for r, k in ((r1, 'rt1'), (r2, 'rt2')):
                 if r is not None:
                     try:
@@ -273,8 +339,8 @@ def bool_event(c):
                     except Exception:
                         ev[k]['eq'] = False
     elif op == 'eqpair':
-        a, oa = obdd_out(lambda: OBDD(text(c['e1']), olist(order)))
-        b, ob = obdd_out(lambda: OBDD(text(c['e2']), olist(order, 1)))
+        a, oa = out(lambda: OBDD(text(c['e1']), olist(order)))
+        b, ob = out(lambda: OBDD(text(c['e2']), olist(order, 1)))
         if a is None or b is None:
             ev['eq'] = ev['same'] = None
             ev['err'] = [oa, ob]
